@@ -14,13 +14,18 @@ theorem not_conflicts_of_critical {lo hi} {a b : Access} (ha : a.critical = true
     ¬ a.ConflictsWith lo hi b :=
   fun hc => hc.2.2.1 ⟨ha, hb⟩
 
+theorem not_conflicts_of_foreign {lo hi} {a b : Access} (ha : a.foreign = true) (hb : b.foreign = true) :
+    ¬ a.ConflictsWith lo hi b :=
+  fun hc => hc.2.2.2.1 ⟨ha, hb⟩
+
 /-- one pair of table rows -/
 macro "race_pair" : tactic => `(tactic|
   first
   | exact not_conflicts_of_not_write rfl
   | exact not_conflicts_of_arr_ne (by decide)
   | exact not_conflicts_of_critical rfl rfl
-  | (rintro ⟨-, -, -, s, i, j, va, vb, hij, hli, hiu, hlj, hju, hga, hgb, hr, hc⟩
+  | exact not_conflicts_of_foreign rfl rfl
+  | (rintro ⟨-, -, -, -, s, i, j, va, vb, hij, hli, hiu, hlj, hju, hga, hgb, hr, hc⟩
      simp only [dimOverlap_some, dimOverlap_none_left, dimOverlap_none_right, Bool.and_eq_true, decide_eq_true_eq]
        at hga hgb hr hc
      omega))
